@@ -93,7 +93,13 @@ func VerifH01cServerEntry() {
 	pb := verifrt.Byte("proto")
 	verifrt.Assume(pb == 1 || pb == 2)
 	proto := int(pb)
-	r := &http.Request{Method: "GET", Host: rawHost, URL: &url.URL{Path: path, RawPath: rawPath}, ProtoMajor: proto, Header: http.Header{}, RemoteAddr: "1.2.3.4:5"}
+	// a request target without a path (absolute-form "GET http://host", authority-form CONNECT)
+	// reaches the server with an empty URL path; it addresses the root
+	urlPath := path
+	if path == "/" && rawPath == "" && verifrt.Bool("target-without-path") {
+		urlPath = ""
+	}
+	r := &http.Request{Method: "GET", Host: rawHost, URL: &url.URL{Path: urlPath, RawPath: rawPath}, ProtoMajor: proto, Header: http.Header{}, RemoteAddr: "1.2.3.4:5"}
 	w := &zzRW{}
 	s.ServeHTTP(w, r)
 
@@ -111,8 +117,8 @@ func VerifH01cServerEntry() {
 		verifrt.Assert(zzAcceptable(sites, nil, host, path, site.cfg, site.path), "most-specific-site-served")
 		verifrt.Assert(w.status == 200, "site-response")
 		if site.path == "/" {
-			verifrt.Assert(seenPath == path, "path-unchanged-for-root-site")
-		} else if rawPath == "" && !strings.Contains(path, "//") {
+			verifrt.Assert(seenPath == urlPath, "path-unchanged-for-root-site")
+		} else if rawPath == "" && urlPath != "" && !strings.Contains(path, "//") {
 			// (beyond the statement: what the handler sees. Left out for doubled slashes, where the
 			// remainder "//x" is re-parsed as a URL and loses what looks like an authority)
 			trimmed := strings.TrimPrefix(path, site.path)
